@@ -22,12 +22,22 @@ import (
 	"bufio"
 	"bytes"
 	"context"
+	"crypto/ecdsa"
+	"crypto/elliptic"
+	"crypto/rand"
+	"crypto/tls"
+	"crypto/x509"
+	"crypto/x509/pkix"
 	"encoding/json"
+	"encoding/pem"
 	"flag"
 	"fmt"
 	"io"
+	"math/big"
 	"net"
 	"net/http"
+	"os"
+	"path/filepath"
 	"sort"
 	"strconv"
 	"strings"
@@ -37,6 +47,7 @@ import (
 
 	eio "github.com/karagenc/socket.io-go/engine.io"
 	"github.com/karagenc/socket.io-go/engine.io/parser"
+	"github.com/quic-go/webtransport-go"
 	"nhooyr.io/websocket"
 
 	"verifharness/vk"
@@ -124,6 +135,9 @@ type limRig struct {
 	mu       sync.Mutex
 	sess     map[string]*sessRec
 	bodyRead sync.Map // X-Vreq -> *int64
+	httpc    *http.Client
+	wt       *webtransport.Server // non-nil: HTTPS + HTTP/3 (WebTransport) rig
+	tmp      string
 }
 
 type countingBody struct {
@@ -156,8 +170,8 @@ func wireSize(p *parser.Packet) int64 {
 	return int64(1 + len(p.Data))
 }
 
-func newLimRig(max int64, dis bool) (*limRig, error) {
-	r := &limRig{max: max, dis: dis, sess: map[string]*sessRec{}}
+func newLimRig(max int64, dis bool, wt bool) (*limRig, error) {
+	r := &limRig{max: max, dis: dis, sess: map[string]*sessRec{}, httpc: plainClient}
 	onSocket := func(sock eio.ServerSocket) *eio.Callbacks {
 		s := r.rec(sock.ID())
 		s.mu.Lock()
@@ -183,7 +197,12 @@ func newLimRig(max int64, dis bool) (*limRig, error) {
 			},
 		}
 	}
-	r.srv = eio.NewServer(onSocket, &eio.ServerConfig{MaxBufferSize: max, DisableMaxBufferSize: dis})
+	scfg := &eio.ServerConfig{MaxBufferSize: max, DisableMaxBufferSize: dis}
+	if wt {
+		r.wt = &webtransport.Server{}
+		scfg.WebTransportServer = r.wt
+	}
+	r.srv = eio.NewServer(onSocket, scfg)
 	if err := r.srv.Run(); err != nil {
 		return nil, err
 	}
@@ -193,6 +212,21 @@ func newLimRig(max int64, dis bool) (*limRig, error) {
 	}
 	r.ln = ln
 	r.base = "http://" + ln.Addr().String()
+	if wt {
+		// as the repository's own WebTransport test: HTTPS on TCP and HTTP/3 on UDP, same port
+		dir, certFile, keyFile, cert, err := selfSigned()
+		if err != nil {
+			return nil, err
+		}
+		r.tmp = dir
+		r.ln = tls.NewListener(ln, &tls.Config{Certificates: []tls.Certificate{cert}})
+		r.base = "https://" + ln.Addr().String()
+		r.httpc = &http.Client{Transport: &http.Transport{DisableKeepAlives: true,
+			TLSClientConfig: &tls.Config{InsecureSkipVerify: true}}, Timeout: 20 * time.Second}
+		r.wt.H3.Addr = ln.Addr().String()
+		r.wt.H3.Handler = r.srv
+		go r.wt.ListenAndServeTLS(certFile, keyFile)
+	}
 	r.hs = &http.Server{Handler: http.HandlerFunc(func(w http.ResponseWriter, req *http.Request) {
 		if id := req.Header.Get("X-Vreq"); id != "" && req.Body != nil {
 			n := new(int64)
@@ -201,13 +235,57 @@ func newLimRig(max int64, dis bool) (*limRig, error) {
 		}
 		r.srv.ServeHTTP(w, req)
 	})}
-	go r.hs.Serve(ln)
+	go r.hs.Serve(r.ln)
 	return r, nil
 }
 
 func (r *limRig) close() {
 	r.srv.Close()
 	r.hs.Close()
+	if r.wt != nil {
+		r.wt.Close()
+		os.RemoveAll(r.tmp)
+	}
+}
+
+// selfSigned writes a throw-away certificate for 127.0.0.1 to a temp dir.
+func selfSigned() (dir, certFile, keyFile string, cert tls.Certificate, err error) {
+	key, err := ecdsa.GenerateKey(elliptic.P256(), rand.Reader)
+	if err != nil {
+		return
+	}
+	tmpl := &x509.Certificate{
+		SerialNumber: big.NewInt(time.Now().UnixNano()),
+		Subject:      pkix.Name{CommonName: "verif"},
+		NotBefore:    time.Now().Add(-time.Hour),
+		NotAfter:     time.Now().Add(24 * time.Hour),
+		KeyUsage:     x509.KeyUsageDigitalSignature,
+		ExtKeyUsage:  []x509.ExtKeyUsage{x509.ExtKeyUsageServerAuth},
+		IPAddresses:  []net.IP{net.ParseIP("127.0.0.1")},
+		DNSNames:     []string{"localhost"},
+	}
+	der, err := x509.CreateCertificate(rand.Reader, tmpl, tmpl, &key.PublicKey, key)
+	if err != nil {
+		return
+	}
+	kder, err := x509.MarshalECPrivateKey(key)
+	if err != nil {
+		return
+	}
+	certPEM := pem.EncodeToMemory(&pem.Block{Type: "CERTIFICATE", Bytes: der})
+	keyPEM := pem.EncodeToMemory(&pem.Block{Type: "EC PRIVATE KEY", Bytes: kder})
+	if cert, err = tls.X509KeyPair(certPEM, keyPEM); err != nil {
+		return
+	}
+	if dir, err = os.MkdirTemp("", "vh-limits-"); err != nil {
+		return
+	}
+	certFile, keyFile = filepath.Join(dir, "cert.pem"), filepath.Join(dir, "key.pem")
+	if err = os.WriteFile(certFile, certPEM, 0o600); err != nil {
+		return
+	}
+	err = os.WriteFile(keyFile, keyPEM, 0o600)
+	return
 }
 
 func (r *limRig) url(tr, sid string) string {
@@ -225,7 +303,7 @@ var vreqSeq int64
 var plainClient = &http.Client{Transport: &http.Transport{DisableKeepAlives: true}, Timeout: 20 * time.Second}
 
 func (r *limRig) pollingHandshake() (sid string, ann int64, err error) {
-	resp, err := plainClient.Get(r.url("polling", ""))
+	resp, err := r.httpc.Get(r.url("polling", ""))
 	if err != nil {
 		return "", 0, err
 	}
@@ -243,7 +321,7 @@ func (r *limRig) pollingHandshake() (sid string, ann int64, err error) {
 
 // followUp posts a small message with Content-Length and reports whether the server took it.
 func (r *limRig) followUp(sid string, s *sessRec) bool {
-	resp, err := plainClient.Post(r.url("polling", sid), "text/plain", strings.NewReader("4ok"))
+	resp, err := r.httpc.Post(r.url("polling", sid), "text/plain", strings.NewReader("4ok"))
 	if err != nil {
 		return false
 	}
@@ -504,12 +582,21 @@ func (r *limRig) dialEIO(transports []string) (eio.ClientSocket, *sessRec, error
 			cr.poke()
 		},
 	}
-	sock, err := eio.Dial(r.base+"/engine.io/", cb, &eio.ClientConfig{
+	ccfg := &eio.ClientConfig{
 		Transports:  transports,
 		UpgradeDone: func(name string) { upgraded <- name },
-	})
+	}
+	if r.wt != nil {
+		ccfg.HTTPTransport = &http.Transport{TLSClientConfig: &tls.Config{InsecureSkipVerify: true}}
+		ccfg.WebTransportDialer = &webtransport.Dialer{TLSClientConfig: &tls.Config{InsecureSkipVerify: true}}
+	}
+	sock, err := eio.Dial(r.base+"/engine.io/", cb, ccfg)
 	if err != nil {
 		return nil, nil, err
+	}
+	if len(transports) == 1 && sock.TransportName() != transports[0] {
+		sock.Close()
+		return nil, nil, fmt.Errorf("connected by %s instead of %s", sock.TransportName(), transports[0])
 	}
 	if len(transports) > 1 {
 		select {
@@ -561,7 +648,9 @@ func (r *limRig) eioCase(tr string, upgrade bool, dir string, size int64, binary
 		c.Variant = "binary"
 	}
 	transports := []string{"polling"}
-	if tr == "ws" {
+	if tr == "wt" {
+		transports = []string{"webtransport"}
+	} else if tr == "ws" {
 		transports = []string{"websocket"}
 		if upgrade {
 			transports = []string{"polling", "websocket"}
@@ -582,7 +671,7 @@ func (r *limRig) eioCase(tr string, upgrade bool, dir string, size int64, binary
 		c.Err = "dial: " + err.Error()
 		return
 	}
-	defer sock.Close()
+	defer func() { go sock.Close() }()
 	sr := r.rec(sock.ID())
 	if !sr.waitFor(3*time.Second, func() bool { return sr.sock != nil }) {
 		c.Err = "server socket not seen"
@@ -592,8 +681,12 @@ func (r *limRig) eioCase(tr string, upgrade bool, dir string, size int64, binary
 	var recv *sessRec
 	if dir == "c2s" {
 		recv = sr
-		sock.Send(msgPacket(size, binary))
-		sock.Send(follow)
+		// not waited for: a refused message can leave the sender blocked in its transport
+		// (WebTransport: until the QUIC idle timeout) while the receiver has long decided
+		go func() {
+			sock.Send(msgPacket(size, binary))
+			sock.Send(follow)
+		}()
 	} else {
 		recv = cr
 		sr.sock.Send(msgPacket(size, binary))
@@ -612,6 +705,13 @@ func (r *limRig) eioCase(tr string, upgrade bool, dir string, size int64, binary
 }
 
 // ---------------------------------------------------------------- plan
+
+// conclusive: a clean delivery or a clean rejection.
+func conclusive(c limCase) bool {
+	acc := c.Delivered == c.Size && c.Alive && !c.Closed
+	rej := c.Delivered == -1 && c.Closed && !c.Alive
+	return acc || rej
+}
 
 type limJob func() limCase
 
@@ -657,7 +757,7 @@ func limitsMain(args []string) error {
 	var rows []limCase
 	var mu sync.Mutex
 	for _, cf := range cfgs {
-		rig, err := newLimRig(cf.max, cf.dis)
+		rig, err := newLimRig(cf.max, cf.dis, false)
 		if err != nil {
 			return err
 		}
@@ -753,11 +853,6 @@ func limitsMain(args []string) error {
 				defer wg.Done()
 				defer func() { <-sem }()
 				c := j()
-				conclusive := func(c limCase) bool {
-					acc := c.Delivered == c.Size && c.Alive && !c.Closed
-					rej := c.Delivered == -1 && c.Closed && !c.Alive
-					return acc || rej
-				}
 				if c.Err == "" && !conclusive(c) {
 					// neither a clean delivery nor a clean rejection (e.g. a wait ran out on a loaded
 					// machine): observe once more; a defect that reproduces stays visible
@@ -781,6 +876,43 @@ func limitsMain(args []string) error {
 		}
 		wg.Wait()
 		rig.close()
+
+		// WebTransport: a second server of the same configuration behind HTTPS + HTTP/3
+		wrig, err := newLimRig(cf.max, cf.dis, true)
+		if err != nil {
+			return err
+		}
+		var wjobs []limJob
+		for _, sz := range sizes {
+			sz := sz
+			wjobs = append(wjobs,
+				func() limCase { return wrig.eioCase("wt", false, "c2s", sz, false) },
+				func() limCase { return wrig.eioCase("wt", false, "s2c", sz, false) })
+			if sz == cf.limit || sz == cf.limit+1 {
+				wjobs = append(wjobs, func() limCase { return wrig.eioCase("wt", false, "c2s", sz, true) })
+			}
+		}
+		for _, j := range wjobs {
+			j := j
+			wg.Add(1)
+			sem <- struct{}{}
+			go func() {
+				defer wg.Done()
+				defer func() { <-sem }()
+				c := j()
+				if c.Err != "" || !conclusive(c) {
+					if c2 := j(); c2.Err == "" {
+						c2.Retried = true
+						c = c2
+					}
+				}
+				mu.Lock()
+				rows = append(rows, c)
+				mu.Unlock()
+			}()
+		}
+		wg.Wait()
+		wrig.close()
 	}
 	sort.SliceStable(rows, func(i, j int) bool {
 		a, b := rows[i], rows[j]
